@@ -268,6 +268,15 @@ class Case(object):
                 self.sentinel_ref = r
         if self.stats_ref is None:
             raise Unsupported('no statistics list [0, 0, 0] found in the prologue')
+        # any OTHER mutable object the prologue creates is hidden state of the wrapper: at the time of a call it holds whatever
+        # earlier calls left there, not what it held at decoration time, and no invariant about it is known
+        known = {r.oid for r in (self.stats_ref, self.queue_ref, self.counter_ref, self.sentinel_ref) if r is not None}
+        self.hidden_refs = []
+        for oid in sorted(set(st.heap) - before):
+            obj = st.heap[oid]
+            if oid in known or obj.kind not in ('list', 'dict', 'concdict', 'deque', 'set'):
+                continue
+            self.hidden_refs.append(Ref(oid))
         self.ops = {}
         for nm in ('info', 'clear', 'load', 'dump', 'archive', 'archived', 'key', 'lookup',
                    '__cache__', '__mask__', '__map__', '__wrapped__'):
@@ -346,6 +355,20 @@ class Case(object):
             C = DictObj.symbolic('cnt', 'Int', c0.cls, role='counter')
             st.put(self.counter_ref, C)
             st.assume(*C.facts())
+        for r in getattr(self, 'hidden_refs', ()):
+            o = st.get(r)
+            if o.kind == 'list':
+                st.put(r, ListObj([Opaque(fresh('hidden', Val)) for _ in o.items], o.role))
+            elif o.kind in ('dict', 'concdict'):
+                d = DictObj.symbolic('hidden', 'Val', getattr(o, 'cls', None))
+                st.put(r, d)
+                st.assume(*d.facts())
+            elif o.kind == 'deque':
+                q = DequeObj.symbolic('hiddenq', 'hidden')
+                st.put(r, q)
+                st.assume(*q.facts())
+            else:
+                raise Unsupported('hidden mutable closure state of kind %s' % o.kind)
         pre = Snap(self, st)
         for (nm, g) in self.inv(pre):
             st.assume(g)
